@@ -495,6 +495,34 @@ class Fn:
 
     _deep = False
 
+    def alt_exprs(self, o, depth=6, _seen=frozenset()):
+        """Deep expressions of an operand, one per reaching definition when the operand is (a copy of) a
+        variable assigned in several arms."""
+        pl = (o.get("move") or o.get("copy")) if isinstance(o, dict) else None
+        if pl is None or pl["p"] or depth <= 0 or pl["l"] in _seen:
+            return [self.deep(o)]
+        defs = self.whole_defs(pl["l"])
+        if len(defs) == 1 and defs[0][1] != "t" and defs[0][2]["rv"]["k"] == "use":
+            return self.alt_exprs(defs[0][2]["rv"]["a"], depth - 1, _seen | {pl["l"]})
+        if len(defs) <= 1:
+            return [self.deep(o)]
+        out = []
+        for (bi, kk, st) in defs:
+            if kk == "t":
+                out.append(("call", norm(st.get("res") or st.get("callee")) or "?", [self.deep(a) for a in st.get("args", [])], bi))
+            elif st["rv"]["k"] == "use":
+                out += self.alt_exprs(st["rv"]["a"], depth - 1, _seen | {pl["l"]})
+            else:
+                out.append(self.deep_rvalue(st["rv"]))
+        return out
+
+    def deep_rvalue(self, rv, depth=12):
+        self._deep = True
+        try:
+            return self.rvalue_expr(rv, depth)
+        finally:
+            self._deep = False
+
     def _local_expr(self, l, depth, seen):
         name = self.locals[l]["name"]
         if name is not None and not (self._deep and len(self.whole_defs(l)) == 1 and l > self.argc and l not in seen and depth > 0):
@@ -702,3 +730,47 @@ class Program:
 
 class AnchorMissing(Exception):
     pass
+
+
+def _operand_places(o):
+    if isinstance(o, dict):
+        pl = o.get("copy") or o.get("move")
+        if pl is not None:
+            yield pl
+
+
+def read_places(fn):
+    """Every place read in live blocks of fn: yields (block, place)."""
+    for b in sorted(fn.live):
+        blk = fn.blocks[b]
+        for s in blk["s"]:
+            rv = s["rv"]
+            for key in ("a", "b"):
+                if key in rv:
+                    for pl in _operand_places(rv[key]):
+                        yield b, pl
+            if "of" in rv:
+                yield b, rv["of"]
+            for o in rv.get("ops", []):
+                for pl in _operand_places(o):
+                    yield b, pl
+        t = blk["t"]
+        for o in t.get("args", []):
+            for pl in _operand_places(o):
+                yield b, pl
+        if "d" in t:
+            for pl in _operand_places(t["d"]):
+                yield b, pl
+        for o in t.get("ops", []):
+            for pl in _operand_places(o):
+                yield b, pl
+
+
+def fields_read(fn, of_type_suffix):
+    """Names of fields projected out of a value whose ADT type ends with `of_type_suffix`."""
+    out = {}
+    for b, pl in read_places(fn):
+        for e in pl["p"]:
+            if isinstance(e, dict) and "f" in e and norm(e.get("of", "")).lstrip("&").endswith(of_type_suffix):
+                out.setdefault(e["f"], []).append(b)
+    return out
